@@ -13,6 +13,7 @@ import CatiiProofs.Sliced
 import CatiiProofs.CollapsedDense
 import CatiiProofs.ReindexedUnique
 import CatiiProofs.HistoryLemmas
+import CatiiProofs.MaskGenBridge
 /-!
 # C06 — index operations track NumPy on the dense array over any history
 
@@ -522,6 +523,23 @@ theorem forced_get_is_where (i : IIndex) (h : WF i) (hnd : i.ndim ≤ 2) (k : Ke
 theorem common_rowids_is_where (i : IIndex) (h : WF i) (hi : List Int) (r : Nat) :
     r ∈ commonRowidsHi i hi ↔ r < i.nrows ∧ denseAt i r hi = i.common :=
   commonRowids_spec i h hi r
+
+/-- the same for `common_rowids` as REGENERATED from the source on every run (`tools/translate_mask.py`: the boolean-mask program
+`ones` / `mask[rowids] = False` for the matching entries / `nonzero`): on a well-formed one- or two-axis index it lists exactly the
+rows holding the common value (in the requested column) -/
+theorem generated_common_rowids_is_where (i : IIndex) (h : WF i) (h2 : i.ndim ≤ 2) (col : Option Int)
+    (hcol : i.ndim > 1 → col ≠ none) (r : Nat) :
+    r ∈ Gen.commonRowidsGen i col ↔
+      r < i.nrows ∧ denseAt i r (if i.ndim > 1 then [col.getD 0] else []) = i.common := by
+  rw [gen_commonRowids_eq i col h.arity h2 hcol]
+  unfold commonRowids
+  by_cases hn : i.ndim > 1
+  · simp only [hn, if_true]
+    cases col with
+    | none => exact absurd rfl (hcol hn)
+    | some c => exact common_rowids_is_where i h [c] r
+  · simp only [hn, if_false]
+    exact common_rowids_is_where i h [] r
 
 /-- `items(force=True)` / `to_dict(force=True)`: every item lists exactly the rows where the dense array holds
 the item's value in the item's column -/
